@@ -29,7 +29,7 @@ ASSUMPTIONS = [
     'float32 rounding once = numpy astype(float32) of the float64 value converted by scipp to the declared unit',
     'clock frozen',
 ]
-REQUIRED_CLASSES = ['masked_pixel_data', 'experiments_in_real_file', 'all_rows_float32', 'non_ascii_strings', 'experiments_reused_ok', 'beyond_float32_range', 'pixels_equal', 'units_converted', 'indirect', 'direct', 'en2d', 'deg_input', 'reader_ok', 'multi_chunk', 'empty_string']
+REQUIRED_CLASSES = ['integer_energies_and_angles', 'masked_pixel_data', 'experiments_in_real_file', 'all_rows_float32', 'non_ascii_strings', 'experiments_reused_ok', 'beyond_float32_range', 'pixels_equal', 'units_converted', 'indirect', 'direct', 'en2d', 'deg_input', 'reader_ok', 'multi_chunk', 'empty_string']
 BOUND = {
     'quick': 'pixels 0..20000, chunk 1..100000, 3 unit sets; runs 1/2/20; both modes',
     'thorough': 'same plus 100000 pixels',
@@ -98,6 +98,12 @@ def cases(tier):
             for mode in ('direct', 'indirect'):
                 for bo in ('little', 'big'):
                     out.append({'kind': 'experiments', 'runs': 2, 'mode': mode, 'en2d': False, 'efix_array': False, 'angle_unit': 'rad', 'energy_unit': 'meV', 'strings': strings, 'byteorder': bo, 'sink': sink})
+    # energies and angles as whole numbers in integer variables (counted in ueV / whole degrees)
+    for idt in ('int64', 'int32'):
+        for mode in ('direct', 'indirect'):
+            for en2d in ((False, True) if mode == 'indirect' else (False,)):
+                for bo in ('little', 'big'):
+                    out.append({'kind': 'experiments', 'runs': 2, 'mode': mode, 'en2d': en2d, 'efix_array': mode == 'direct', 'angle_unit': 'deg', 'energy_unit': 'ueV', 'strings': 'plain', 'byteorder': bo, 'int_dtype': idt})
     shapes = [(2, 2, 2, 2), (1, 1, 1, 1), (3, 1, 4, 2), (40, 50, 4, 3)]
     for shape in shapes:
         for qu in ('1/angstrom', '1/nm', '10/angstrom'):
@@ -245,7 +251,7 @@ def run_experiments(case, rec):
     exps = []
     for r, rid in enumerate(ids):
         fn, fp = _strings(case['strings'], r)
-        exps.append(sq.experiment(run_id=rid, mode=case['mode'], angle_unit=case['angle_unit'], energy_unit=case['energy_unit'], en2d=case['en2d'], efix_array=case['efix_array'], filename=fn, filepath=fp))
+        exps.append(sq.experiment(run_id=rid, mode=case['mode'], angle_unit=case['angle_unit'], energy_unit=case['energy_unit'], en2d=case['en2d'], efix_array=case['efix_array'], filename=fn, filepath=fp, int_dtype=case.get('int_dtype')))
     data, _ = sq.write_file(('inst', 'pix', 'samp'), byteorder=case['byteorder'], sink=case.get('sink', 'bytes'), n_pixels=5, experiments=exps, title='Titel \u00fc\u4e2d' if case['strings'] == 'nonascii' else 'T')
     rec.transitions += 1
     site = 'SqwBuilder.create'
@@ -265,6 +271,8 @@ def run_experiments(case, rec):
         rec.cls('non_ascii_strings')
     if case.get('sink', 'bytes') != 'bytes':
         rec.cls('experiments_in_real_file')
+    if case.get('int_dtype'):
+        rec.cls('integer_energies_and_angles')
     mh = sqwdec.struct_of(dec['blocks'][('', 'main_header')])
     if sqwdec.scalar(mh['nfiles']) != float(runs):
         rec.viol(site, 'nfiles', f'main header nfiles {sqwdec.scalar(mh["nfiles"])}, expected {runs}')
